@@ -122,7 +122,7 @@ def dea3_agreement(terms, out):
 # ---------------------------------------------------------------------------------------------
 # Dea: exhaustive tree (full alphabet, bounded depth) + prefix x periodic continuation (long runs)
 
-def explore_dea(limexp, prefix, depth, acc, seen, stats):
+def explore_dea(limexp, prefix, depth, acc, seen, stats, traps=False):
     """DFS from the state reached by `prefix` (list of symbols), full alphabet, to total depth."""
     from numdifftools.extrapolation import Dea
     obj = Dea(limexp=limexp)
@@ -137,7 +137,7 @@ def explore_dea(limexp, prefix, depth, acc, seen, stats):
         except Exception as e:
             out = e
         stats['transitions'] += 1
-        if not check_dea_step(limexp, prefix[:k + 1], terms, out, acc, root_only=(k + 1 < len(prefix))):
+        if not check_dea_step(limexp, prefix[:k + 1], terms, out, acc, root_only=(k + 1 < len(prefix)), traps=traps):
             ok = False
             break
         last = t
@@ -158,7 +158,7 @@ def explore_dea(limexp, prefix, depth, acc, seen, stats):
             stats['transitions'] += 1
             terms.append(t)
             syms.append(sym)
-            good = check_dea_step(limexp, syms, terms, out, acc)
+            good = check_dea_step(limexp, syms, terms, out, acc, traps=traps)
             if good:
                 d = digest(o2, k + 1, t)
                 if d not in seen:
@@ -172,17 +172,19 @@ def explore_dea(limexp, prefix, depth, acc, seen, stats):
     rec(obj, terms, list(prefix), last)
 
 
-def check_dea_step(limexp, syms, terms, out, acc, root_only=False):
+def check_dea_step(limexp, syms, terms, out, acc, root_only=False, traps=False):
     prob = dea_invariants(terms, out, limexp)
     if prob is None and len(terms) == 3:
         prob = dea3_agreement(list(terms), out)
     if not root_only:
-        acc.case(('dea', limexp, tuple(syms)), nontrivial=len(terms) >= 3,
-                 cell=['dea/limexp=%d' % limexp, 'dea/full' if len(terms) > limexp else 'dea/filling'],
+        acc.case(('dea-traps' if traps else 'dea', limexp, tuple(syms)), nontrivial=len(terms) >= 3,
+                 cell=['dea-fp-traps/limexp=%d' % limexp] if traps else ['dea/limexp=%d' % limexp, 'dea/full' if len(terms) > limexp else 'dea/filling'],
                  outcome=None if isinstance(out, Exception) else (round(float(out[0]), 6), prob is None))
     if prob:
         if not root_only:
-            acc.violation('C14:Dea:%s' % prob[0], dict(kind='dea', limexp=limexp, syms=list(syms)), prob[1],
+            acc.violation('C14:Dea:%s%s' % (prob[0], ':fp-traps' if traps else ''),
+                          dict(kind='dea-traps' if traps else 'dea', limexp=limexp, syms=list(syms)),
+                          prob[1] + (' [caller runs with np.errstate(divide, over, invalid = raise)]' if traps else ''),
                           rank=len(syms) * 100 + limexp)
         return False
     return True
@@ -197,6 +199,20 @@ def work_dea_tree(chunk, depth=6):
     acc.count('dea_states', len(seen))
     acc.count('dea_transitions', stats['transitions'])
     acc.count('dea_merged_states', stats['merged'])
+    return acc
+
+
+def work_dea_traps(chunk, depth=5):
+    """the same tree (one level less) explored while the CALLER has numpy's floating-point traps on (divide, overflow and
+    invalid raise FloatingPointError): Dea tests before it divides, so "accepts any sequence without raising" does not depend
+    on the caller's error state.  (Underflow is left at its default: the algorithm relies on gradual underflow.)"""
+    acc = fw.Acc()
+    seen = set()
+    stats = dict(transitions=0, merged=0)
+    with np.errstate(divide='raise', over='raise', invalid='raise'):
+        for limexp, prefix in chunk:
+            explore_dea(limexp, list(prefix), depth, acc, seen, stats, traps=True)
+    acc.count('dea_transitions', stats['transitions'])
     return acc
 
 
@@ -449,6 +465,7 @@ def run(ctx):
     depth = 6 if q else 7
     roots = [(lim, pre) for lim in limexps for pre in itertools.product(ALPHABET, repeat=2)]
     acc.merge(ctx.pmap(work_dea_tree, roots, chunk=2, depth=depth))
+    acc.merge(ctx.pmap(work_dea_traps, roots, chunk=4, depth=depth - 1))
     # Dea long runs: prefix x periodic continuation
     lims_long = [3, 4, 5, 6, 7, 9, 12, 20, 50] if q else list(range(3, 61))
     plen = 2 if q else 3
@@ -471,7 +488,7 @@ def run(ctx):
                     terms=[next_term(s, k, 1.0) for k, s in enumerate(['geo', 'geo', 'rep', 'ulp', 'jump', 'zero'])]))
     acc.sample(dict(kind='dea-long', limexp=5, prefix=['geo', 'alt'], period=['rep', 'ulp'], length=length))
     acc.sample(dict(kind='epsalg-model', L=-3.7, qs=[0.5, -0.4], coefs=[1.0, -2.0], prefixes='1..5 terms'))
-    req = ['dea/limexp=%d' % l for l in limexps] + ['dealong/limexp=%d' % l for l in lims_long] + [
+    req = ['dea-fp-traps/limexp=%d' % l for l in limexps] + ['dea/limexp=%d' % l for l in limexps] + ['dealong/limexp=%d' % l for l in lims_long] + [
         'epsalg/transients=%d' % k for k in (1, 2, 3, 4)] + ['dea/full', 'dea/filling', 'dea/agrees-with-table']
     rule = ('E2 on the real objects. Dea: every sequence over the 8-symbol alphabet %r to depth %d for limexp in %r '
             '(states merged on an exact digest of the object fields); every (prefix of <= %d symbols) x (constant or '
@@ -499,6 +516,22 @@ def replay(case):
         a = work_dea_scaled([(case['L'], case['q'], case['a'], case['sexp'], case['limexp'])])
         bad = [r['detail'] for k, (n, recs) in a.viol.items() for r in recs]
         return not bad, '%r -> %s' % (case, bad or 'ok')
+    if kind == 'dea-traps':
+        obj = Dea(limexp=case['limexp'])
+        terms, last, out = [], None, None
+        with np.errstate(divide='raise', over='raise', invalid='raise'):
+            for k, s in enumerate(case['syms']):
+                t = next_term(s, k, last)
+                terms.append(t)
+                try:
+                    out = obj(t)
+                except Exception as e:      # noqa: BLE001
+                    out = e
+                    break
+                last = t
+        prob = dea_invariants(terms, out, case['limexp'])
+        return prob is None, 'Dea(limexp=%d) fed %r under np.errstate(divide, over, invalid = raise) -> %r ; %r' % (
+            case['limexp'], terms, out, prob)
     if kind == 'dea':
         seen, stats = set(), dict(transitions=0, merged=0)
         explore_dea(case['limexp'], case['syms'], len(case['syms']), acc, seen, stats)
